@@ -44,6 +44,15 @@ def invalid_packages():
         variant("duplicate-field/" + loc, "semantic", loc, lambda f, p=path: f.__setitem__(p, f[p] + "Bad: !record\n  fields:\n    a: int\n    a: int\n"))
         variant("unused-generic/" + loc, "semantic", loc, lambda f, p=path: f.__setitem__(p, f[p] + "Bad<T>: int\n"))
         variant("computed-field-type/" + loc, "semantic", loc, lambda f, p=path: f.__setitem__(p, f[p] + "Bad: !record\n  fields:\n    s: string\n  computedFields:\n    c: s + 1\n"))
+        # naming rules of every kind of declaration (each is checked by its own validation pass)
+        variant("duplicate-step/" + loc, "semantic", loc, lambda f, p=path: f.__setitem__(p, f[p] + "BadP: !protocol\n  sequence:\n    a: int\n    a: int\n"))
+        variant("step-name-not-camel-case/" + loc, "semantic", loc, lambda f, p=path: f.__setitem__(p, f[p] + "BadP: !protocol\n  sequence:\n    Not_camel: int\n"))
+        variant("field-name-not-camel-case/" + loc, "semantic", loc, lambda f, p=path: f.__setitem__(p, f[p] + "Bad: !record\n  fields:\n    Bad_name: int\n"))
+        variant("type-name-not-pascal-case/" + loc, "semantic", loc, lambda f, p=path: f.__setitem__(p, f[p] + "bad_type: int\n"))
+        variant("duplicate-enum-value/" + loc, "semantic", loc, lambda f, p=path: f.__setitem__(p, f[p] + "BadE: !enum\n  values:\n    a: 1\n    b: 1\n"))
+        variant("stream-in-record/" + loc, "semantic", loc, lambda f, p=path: f.__setitem__(p, f[p] + "Bad: !record\n  fields:\n    s: !stream\n      items: int\n"))
+        variant("union-with-duplicate-case/" + loc, "semantic", loc, lambda f, p=path: f.__setitem__(p, f[p] + "Bad: [int, int]\n"))
+        variant("map-key-not-primitive/" + loc, "semantic", loc, lambda f, p=path: f.__setitem__(p, f[p] + "BadK: !record\n  fields:\n    k: int\nBad: BadK->int\n"))
     # evolution check only: the models are all valid, the change against one version is incompatible
     variant("evolution/incompatible-with-first-version", "evolution", "evolution-first-version",
             lambda f: f.__setitem__("v0/a.yml", f["v0/a.yml"].replace("    first: int\n", "    first: int*\n")))
@@ -93,7 +102,8 @@ def run_case(case):
     outabs = os.path.normpath(os.path.join(wd, "main", outroot))
     if init == "populated":
         build.write_tree(wd, with_conf(base_files))
-        rc, out, err = build.yardl(["generate"] + overrides, cwd=os.path.join(wd, "main"))
+        populate_with = [] if any("disabled" in x for x in overrides) else overrides     # the earlier successful run had its targets on
+        rc, out, err = build.yardl(["generate"] + populate_with, cwd=os.path.join(wd, "main"))
         if rc != 0:
             return case[:3], {"harness": "valid base does not generate: " + err[-400:]}
         with open(os.path.join(outabs, "stale-extra-file.txt"), "w") as f:
@@ -124,18 +134,20 @@ def main(tier):
                 "run (each must fail and leave the snapshot untouched); the valid base must generate")
     build.yardl_bin()
     base, invalid = invalid_packages()
-    subsets = [("cpp",), ("python",), ("json",), ("matlab",), ("cpp", "python", "json", "matlab")]
+    subsets = [("cpp",), ("python",), ("json",), ("matlab",), ("cpp", "python", "json", "matlab"), ()]
     if not quick:
         subsets = [s for r in range(1, 5) for s in itertools.combinations(("cpp", "python", "json", "matlab"), r)]
     cases = []
     slot = 0
     for label, kind, loc, files in invalid:
         for targets in subsets:
-            for outloc in (("outside",) if quick and len(targets) == 1 else ("outside", "inside")):
-                for init in ("absent", "empty", "populated"):
+            for outloc in (("outside",) if (quick and len(targets) == 1) or not targets else ("outside", "inside")):
+                for init in (("absent",) if not targets else ("absent", "empty", "populated")):
                     ovs = [[]]
                     if len(targets) == 4 and init != "empty":
                         ovs.append(["-c", "cpp.generateHDF5=false", "-c", "python.generateNDJson=false"])
+                        # every configured target switched off on the command line: nothing to write, the package is still invalid
+                        ovs.append(["-c", "cpp.disabled=true", "-c", "python.disabled=true", "-c", "json.disabled=true", "-c", "matlab.disabled=true"])
                     for ov in ovs:
                         cases.append((label, kind, loc, files, base, targets, outloc, init, ov, slot))
                         slot += 1
